@@ -69,6 +69,9 @@ def units_type(bs, ty):
 
 
 def conv_slot_body(q, u, bs, ty):
+    if u.get("added"):
+        from . import added as AD
+        return AD.repath(conv_slot_body(q, dict(u, added=False), bs, ty), q, u)
     qm, alias, un = q["module"], q["alias"], u["name"]
     hx = "hex64" if ty == "f64" else "hex32"
     of = "f64_of" if ty == "f64" else "f32_of"
